@@ -32,6 +32,13 @@ void judge(std::vector<T> const& w, std::vector<T> const& d, T minw, T beta, std
     count("vectors_checked");
     std::vector<LD> wl(w.begin(), w.end()), dl(d.begin(), d.end()), ref;
     bool info_present = refine_weights_ref(wl, dl, minw, beta, ref);
+    {
+        // data so small that every product weight * datum^beta underflows to zero in T carry no information
+        // for the type under test either
+        bool all_underflow = true;
+        for (std::size_t i = 0; i < n; ++i) if (w[i] * std::pow(d[i], beta) != T()) all_underflow = false;
+        if (info_present && all_underflow) { info_present = false; count("information_lost_to_underflow_in_T"); }
+    }
     if (!info_present)
     {
         // no information: the weights stay as they were - either literally (what a run, whose weights are
@@ -111,8 +118,9 @@ std::vector<T> make_data(Rng& rng, std::size_t n, std::string& kind)
 {
     std::vector<T> d(n, T());
     int const span = std::is_same<T, float>::value ? 30 : 300;
-    switch (rng.below(6))
+    switch (rng.below(7))
     {
+    case 6: kind = "subnormal-products"; for (auto& x : d) x = std::numeric_limits<T>::denorm_min() * T(rng.below(40)); if (rng.below(2)) for (auto& x : d) x *= T(64); break;
     case 0: kind = "all-zero"; break;
     case 1: kind = "single-non-zero"; d[rng.below(n)] = std::ldexp(T(1) + T(rng.u01l()), int(rng.below(2 * span)) - span); break;
     case 2: kind = "wide-range"; for (auto& x : d) x = std::ldexp(T(1) + T(rng.u01l()), int(rng.below(2 * span)) - span); break;
@@ -254,6 +262,16 @@ void in_run(Rng& rng)
     typedef hep::multi_channel_chkpt_with_rng<std::mt19937, T> chk_t;
     std::mt19937 eng((unsigned)rng.next());
     chk_t chk(eng, user, minw, beta);
+    if (rng.below(2))
+    {
+        // the run starts from a checkpoint that was written to text and read back before the first iteration
+        chk.channels(n);
+        std::ostringstream o;
+        chk.serialize(o);
+        std::istringstream in(o.str());
+        chk = chk_t(in);
+        count("runs_started_from_reloaded_initial_checkpoint");
+    }
     RunCallback<chk_t> cb = {&r, info, minw, beta, user};
     g_run = &r;
     int P = rng.below(3) == 0 ? (int)rng.range(2, 4) : 1;
